@@ -138,7 +138,7 @@ def r4(ctx):
     trail = [n for n in ast.walk(rc.node) if isinstance(n, ast.If) and norm(n.test) == "dialect['trailing semicolon']"]
     enc = [n for n in ast.walk(rc.node) if isinstance(n, ast.Subscript) and is_name(n.value, "quoter")]
     steps = [("percent-encoding", _first(enc)), ("multi-value join", _first(mvj)), ("quoting", _first(quote)),
-             ("key/value join", _first([c for c in kvj if quote and c.lineno > quote[0].lineno] or kvj)),
+             ("key/value join", _first([c for c in kvj if mvj and c.lineno > _first(mvj).lineno] or kvj)),
              ("field join", _first(fsj)), ("trailing semicolon", _first(trail))]
     for name, n in steps:
         ctx.ob("R4", n is not None, "printing has a %s step" % name, func=rc, sig="print step %s %s" % (name, "present" if n is not None else "missing"), nontrivial=False)
